@@ -13,6 +13,12 @@ pub const ALPHABET: &[char] = &['a', 'é', 'ê', '☃', '☄', '😀', '😁', '
 /// (C2 A9 / C3 A9; E3 81 82 / E3 82 82; E2 98 83 / E3 98 83; F1.. / F2.. with equal tails).
 pub const ALPHABET2: &[char] = &['©', 'é', 'ª', 'あ', 'も', '\u{3603}', '\u{5F600}', '\u{9F600}'];
 
+/// A third alphabet: 'a', 'b' and the code points at the boundaries of the UTF-8 encoding lengths
+/// and of the ranges the automaton's "any other character" transitions are built from.
+pub const ALPHABET3: &[char] = &['a', 'b', '\u{0}', '\u{1}', '\u{7E}', '\u{7F}', '\u{80}', '\u{81}', '\u{7FF}', '\u{800}', '\u{801}', '\u{FFF}',
+    '\u{1000}', '\u{CFFF}', '\u{D000}', '\u{D7FF}', '\u{E000}', '\u{FFFD}', '\u{FFFF}', '\u{10000}', '\u{10001}', '\u{3FFFF}', '\u{40000}',
+    '\u{FFFFF}', '\u{100000}', '\u{10FFFF}'];
+
 fn strings(maxlen: usize) -> Vec<Vec<usize>> {
     let mut all: Vec<Vec<usize>> = vec![vec![]];
     let mut frontier: Vec<Vec<usize>> = vec![vec![]];
@@ -35,7 +41,11 @@ thread_local! {
     static WHICH: std::cell::Cell<u8> = std::cell::Cell::new(1);
 }
 fn text(s: &[usize]) -> String {
-    let a = if WHICH.with(|w| w.get()) == 1 { ALPHABET } else { ALPHABET2 };
+    let a = match WHICH.with(|w| w.get()) {
+        1 => ALPHABET,
+        2 => ALPHABET2,
+        _ => ALPHABET3,
+    };
     s.iter().map(|&c| a[c - 1]).collect()
 }
 
@@ -53,7 +63,49 @@ pub fn c17(log: &mut Log, seed: u64, tier: &str) {
     // the same scope over the second alphabet (TLC's judgement only depends on character equality)
     WHICH.with(|w| w.set(2));
     c17_with(log, seed + 1, tier, false);
+    WHICH.with(|w| w.set(3));
+    c17_codepoints(log);
     WHICH.with(|w| w.set(1));
+}
+
+/// Every boundary code point inserted into / substituted in / appended to a few short queries.
+fn c17_codepoints(log: &mut Log) {
+    let n = ALPHABET3.len();
+    let queries: Vec<Vec<usize>> = vec![vec![], vec![1], vec![1, 2], vec![1, 2, 1], vec![6], vec![1, 7], vec![20, 1]];
+    for q in &queries {
+        for d in 0..=2u32 {
+            let lev = match guard(|| Levenshtein::new(&text(q), d)) {
+                Ok(Ok(l)) => l,
+                Ok(Err(_)) => continue,
+                Err(p) => {
+                    log.ev(json!({"ev": "Panic", "in": "new", "msg": p}));
+                    continue;
+                }
+            };
+            let mut keys: Vec<Vec<usize>> = vec![q.clone()];
+            for c in 1..=n {
+                for pos in 0..=q.len() {
+                    let mut k = q.clone();
+                    k.insert(pos, c);
+                    keys.push(k);
+                    if pos < q.len() {
+                        let mut k = q.clone();
+                        k[pos] = c;
+                        keys.push(k);
+                    }
+                }
+                keys.push(vec![c, c]);
+            }
+            keys.sort();
+            keys.dedup();
+            for k in &keys {
+                match guard(|| is_match(&lev, &text(k))) {
+                    Ok(m) => log.ev(json!({"ev": "LevM", "q": q, "d": d, "k": k, "m": m})),
+                    Err(p) => log.ev(json!({"ev": "Panic", "in": "is_match", "msg": p})),
+                }
+            }
+        }
+    }
 }
 
 fn c17_with(log: &mut Log, seed: u64, tier: &str, limits: bool) {
